@@ -3,6 +3,7 @@ package props
 import (
 	"fmt"
 	"math"
+	"strings"
 
 	eval "github.com/onheap/eval"
 
@@ -374,6 +375,7 @@ func tryEvalCheck(r *rep.Run, kleene bool) {
 	})
 	r.Cov["programs_completed"] = done
 	tryEvalLateVariable(r)
+	tryEvalDottedNames(r)
 	if !kleene {
 		tryEvalUserOperators(r)
 		tryEvalValues(r)
@@ -723,4 +725,119 @@ func tryEvalValues(r *rep.Run) {
 	}, []drive.Opt{{}, {CF: true, RN: true, FE: true, RO: true}, {FE: true}, {Events: 1, FE: true}, {Undef: 1, FE: true}})
 	r.Cov["value_domain_runs"] = runs
 	r.Add(0, runs, runs, runs, nontrivial)
+}
+
+// truthMap is a truthful name-keyed fetcher: a variable is available exactly
+// when the map holds an entry under its own name.
+type truthMap map[string]interface{}
+
+func (m truthMap) Get(_ eval.VariableKey, s string) (eval.Value, error) {
+	v, ok := m[s]
+	if !ok {
+		return nil, fmt.Errorf("variable %s has no value", s)
+	}
+	return v, nil
+}
+func (m truthMap) Set(eval.VariableKey, string, eval.Value) error { return nil }
+func (m truthMap) Cached(_ eval.VariableKey, s string) bool       { _, ok := m[s]; return ok }
+
+// tryEvalDottedNames: variables whose names are dotted paths of one another
+// (u, u.p, u.p.q) are independent variables. Every program of a small menu x
+// {names resolved by name, names registered + undefined ones allowed, names
+// registered} x every split into supplied / not supplied x extra supplied
+// entries the program does not mention (among them an object under the root
+// name): TryEval with the context NewCtxFromVars builds from the supplied
+// entries answers exactly as with a truthful fetcher over the same entries,
+// and a definite answer is what Eval returns once everything is supplied.
+func tryEvalDottedNames(r *rep.Run) {
+	names := []string{"u", "u.p", "u.p.q", "b"}
+	full := map[string]interface{}{"u": int64(1), "u.p": int64(2), "u.p.q": int64(3), "b": true}
+	srcs := []string{"(= u.p 2)", "(and (= u.p 2) b)", "(or b (= u.p 1))", "(if (= u.p.q 3) u.p 7)", "(+ u u.p u.p.q)", "(and (= u 1) (= u.p 2) (= u.p.q 3))",
+		"(= (+ u.p 1) 3)", "(or (= u.p.q 9) (= u.p 9) (= u 1))", "(if b u.p u.p.q)", "(not (and b (!= u.p.q 3)))"}
+	extras := []map[string]interface{}{{}, {"x": int64(5)}, {"u": map[string]interface{}{"p": int64(9), "q": nil}}, {"u.p": map[string]interface{}{"q": int64(9)}}, {"u": "text"}}
+	var runs int64
+	for _, src := range srcs {
+		toks := strings.Fields(strings.NewReplacer("(", " ", ")", " ").Replace(src))
+		var used []string
+		for _, n := range names {
+			for _, t := range toks {
+				if t == n {
+					used = append(used, n)
+					break
+				}
+			}
+		}
+		for mode := 0; mode < 3; mode++ {
+			cfg := eval.NewConfig(eval.Optimizations(mode != 2))
+			if mode != 0 {
+				for i, n := range names {
+					cfg.VariableKeyMap[n] = eval.VariableKey(i + 1)
+				}
+			}
+			if mode != 2 {
+				cfg.CompileOptions[eval.AllowUndefinedVariable] = true
+			}
+			e, err := eval.Compile(cfg, src)
+			if err != nil {
+				r.Violate("compile", "dotted"+src, sprintf("%s does not compile: %v", src, err), map[string]interface{}{"source": src})
+				continue
+			}
+			all := truthMap{}
+			for _, n := range used {
+				all[n] = full[n]
+			}
+			fv, ferr := e.Eval(&eval.Ctx{VariableFetcher: all})
+			for mask := 0; mask < 1<<len(used); mask++ {
+				for _, ex := range extras {
+					supplied := map[string]interface{}{}
+					clash := false
+					for k, v := range ex {
+						for _, n := range used {
+							if n == k {
+								clash = true
+							}
+						}
+						supplied[k] = v
+					}
+					if clash {
+						continue // the extra entry would bind a variable the program reads
+					}
+					truth := truthMap{}
+					for i, n := range used {
+						if mask&(1<<i) != 0 {
+							supplied[n], truth[n] = full[n], full[n]
+						}
+					}
+					if mode == 2 {
+						// registered names, slice-backed context: what is not supplied reads as nil there, which is outside C04
+						if mask != 1<<len(used)-1 {
+							continue
+						}
+					}
+					var tv, lv eval.Value
+					var terr, lerr error
+					pn, site := drive.Fence(func() {
+						tv, terr = e.TryEval(&eval.Ctx{VariableFetcher: truth})
+						lv, lerr = e.TryEval(eval.NewCtxFromVars(cfg, supplied))
+					})
+					runs += 2
+					d := map[string]interface{}{"source": src, "supplied": fmt.Sprint(supplied), "names": []string{"resolved by name", "registered, undefined allowed", "registered"}[mode]}
+					if pn != nil {
+						r.Violate("panic", "dotted"+site, sprintf("TryEval of %s panics: %v (at %s)", src, pn, site), d)
+						continue
+					}
+					lib, tru := drive.Out{Val: lv, Err: lerr}, drive.Out{Val: tv, Err: terr}
+					if !drive.SameOutcome(lib, tru) || (terr == nil && isDNE(tv) != isDNE(lv)) {
+						r.Violate("library-context", "dotted"+src+fmt.Sprint(mode), sprintf("%s: TryEval with the context NewCtxFromVars builds from %v gives %s, with a truthful fetcher over the same variables it gives %s", src, supplied, lib, tru), d)
+						continue
+					}
+					if lerr == nil && !isDNE(lv) && ferr == nil && !drive.SameOutcome(lib, drive.Out{Val: fv}) {
+						r.Violate("contradicted", "dotted"+src+fmt.Sprint(mode), sprintf("%s: TryEval answers %s with %v supplied, Eval with everything supplied returns %v", src, lib, supplied, fv), d)
+					}
+				}
+			}
+		}
+	}
+	r.Cov["dotted_name_runs"] = runs
+	r.Add(0, runs, runs, runs, 0)
 }
